@@ -608,6 +608,33 @@ def _group_text(pat, n):
     return None
 
 
+def _group_index_by_name(pat, name):
+    """1-based number of the capture group called `name` (`(?P<name>..)` / `(?<name>..)`), or None"""
+    idx = 0
+    i = 0
+    while i < len(pat):
+        ch = pat[i]
+        if ch == "\\":
+            i += 2
+            continue
+        if ch == "[":
+            j = pat.find("]", i + 2)
+            i = (j if j > 0 else len(pat)) + 1
+            continue
+        if ch == "(":
+            if pat.startswith("(?", i):
+                for pre in ("(?P<", "(?<"):
+                    if pat.startswith(pre, i) and not pat.startswith("(?<=", i) and not pat.startswith("(?<!", i):
+                        idx += 1
+                        if pat[i + len(pre):pat.index(">", i)] == name:
+                            return idx
+                        break
+            else:
+                idx += 1
+        i += 1
+    return None
+
+
 def _digits_only(prog, f, b, t):
     import re as _re
     recv = prim.origin_of_operand(f, t.args[0])
@@ -640,7 +667,14 @@ def _digits_only(prog, f, b, t):
         lits = [c.get("v") for c in src.consts() if isinstance(c.get("v"), str) and c.get("v").startswith("^")]
         nums = [c.get("v") for c in src.consts() if isinstance(c.get("v"), int) and not isinstance(c.get("v"), bool)]
         calls = [c.a["name"] for c in src.call_nodes()]
-        if len(lits) == 1 and "captures" in calls and ("index" in calls or "get" in calls) and nums:
+        names_ = [cn_ for cn_ in src.call_nodes() if cn_.a["name"] == "name" and "Captures" in str(cn_.a.get("callee")) + str(cn_.a.get("inst"))]
+        if len(lits) == 1 and "captures" in calls and len(names_) == 1 and len(names_[0].kids) == 2:
+            # a named group: `caps.name("year")`
+            gname = [c_.get("v") for c_ in names_[0].kids[1].consts() if isinstance(c_.get("v"), str)]
+            gi = _group_index_by_name(lits[0].replace("\\\\", "\\"), gname[0]) if len(gname) == 1 else None
+            if gi is not None:
+                pat, n = lits[0], gi
+        elif len(lits) == 1 and "captures" in calls and ("index" in calls or "get" in calls) and nums:
             pat, n = lits[0], nums[-1]
         elif len(lits) == 1 and "captures" in calls and src is not recv:
             # the group is picked inside the closure (`captures(s).and_then(|groups| groups[2].parse())`): the closure's
